@@ -3,81 +3,44 @@
 Static lockset + confinement analysis: schedule-independent by construction.
 
 Every rule is evaluated in calling contexts (entry points with their helpers inlined) and speaks about
-*state* (records/fields, file-scope variables), *exported functions* and *roles* (installed signal handler,
-atfork handlers, thread bodies, handler installed into a particular object, tls init hooks, constructors,
-poll-method slots, the child side of a fork()).  No rule names a static function: see h14.py.
+*state* (fields of the named record types, file-scope locations), *exported functions* and *roles* (installed signal
+handler, atfork handlers, thread bodies, handler installed into a particular object, tls init hooks, constructors,
+poll-method slots, the child side of a fork()).  No rule names a static function, a file-scope variable or a lock:
+
+  * which lock protects a location is *derived*: the lock that is held at the sites that modify it (h14/Model.lock_of);
+  * file-scope locations (variables and fields of file-scope structs alike) are classified by what is done with
+    them: lock objects, lock-protected data, one-way flags, configuration setters, set-up-phase data;
+  * the fields of the work pool's private records are classified from their accesses (immutable after publication /
+    lock-protected / own synchronisation / thread-confined), the records themselves are found by role.
 """
 from ..core import (AnalysisBroken, Inliner, canon, strip, strip_load, last_member, forward, lvalue_steps, lvalue_root,
-                    is_null)
-from ..analyses import (held, SIGBLOCK, callback_kind, describe)
+                    is_null, walk)
+from ..analyses import (held, SIGBLOCK, callback_kind, describe, LOCK_FUNCS)
 from . import h14 as h
 
-EVL = 'iv_state.event_list_mutex'
-POOL = 'work_pool_priv.lock'
-SIG = 'sig_lock'
-WAIT = 'iv_wait_lock'
-AFD = 'iv_fd_epoll_active_fd_mutex'
-
-# location -> lock that must be held at every access
-SHARED = {
-    ('iv_state', 'events_pending'): EVL,
-    ('iv_event', 'list'): EVL,
-    ('work_pool_priv', 'shutting_down'): POOL, ('work_pool_priv', 'started_threads'): POOL,
-    ('work_pool_priv', 'idle_threads'): POOL, ('work_pool_priv', 'seq_head'): POOL, ('work_pool_priv', 'seq_tail'): POOL,
-    ('work_pool_priv', 'work_items'): POOL, ('work_pool_priv', 'work_done'): POOL,
-    ('work_pool_thread', 'list'): POOL, ('work_pool_thread', 'kicked'): POOL,
-    ('global', 'process_sigs'): SIG, ('global', 'total_num_interests'): SIG, ('global', 'sig_owner_pid'): SIG,
-    ('iv_signal', 'an'): SIGBLOCK, ('iv_signal', 'active'): SIGBLOCK,
-    ('iv_signal_thr_info', 'thr_sigs'): SIGBLOCK,
-    ('global', 'iv_wait_interests'): WAIT,
-    ('iv_wait_interest', 'avl_node'): WAIT, ('iv_wait_interest', 'events_pending'): WAIT, ('iv_wait_interest', 'flags'): WAIT,
-    ('global', 'iv_active_fd_refcount'): AFD,
+# fields of the named (header-declared) record types that the property text lists as shared state.  The lock is not
+# tabled: it is the lock held where the field is modified (derived), and every other access must hold the same one.
+PROTECTED_FIELDS = {
+    ('iv_event', 'list'): 'link of a posted event in its owner\'s pending list',
+    ('iv_signal', 'an'): 'tree node of a signal interest',
+    ('iv_signal', 'active'): 'signal interest woken',
+    ('iv_wait_interest', 'avl_node'): 'tree node of a wait interest',
+    ('iv_wait_interest', 'events_pending'): 'queued status changes',
+    ('iv_wait_interest', 'flags'): 'dead marker',
 }
-# immutable after creation / thread-confined fields of the shared record types: classified so that a
-# new field of these records is reported until someone classifies it
-CLASSIFIED_UNSHARED = {
-    'work_pool_priv': {'lock': 'the lock itself', 'ev': 'iv_event: own synchronisation', 'thread_needed': 'iv_event: own synchronisation',
-                       'max_threads': 'written once before publication', 'cookie': 'written once before publication',
-                       'thread_start': 'written once before publication', 'thread_stop': 'written once before publication',
-                       'tid': 'written once before publication'},
-    'work_pool_thread': {'pool': 'written once before the thread starts', 'kick': 'iv_event: own synchronisation',
-                         'idle_timer': 'touched only by the worker thread itself'},
-}
-
-# file-scope one-way flags: name -> (value kind, why).  What makes a flag one-way is checked, not who writes it.
-ONE_WAY = {
-    'epoll_support': ('int', 'feature detection: demoted on ENOSYS'),
-    'epoll_pwait2_support': ('int', 'feature detection'),
-    'eventfd_in_use': ('int', 'feature detection'),
-    'pipe2_support': ('int', 'feature detection'),
-    'splice_available': ('int', 'feature probe'),
-    'clock_source': ('int', 'feature detection'),
-    'iv_event_use_event_raw': ('int', 'transport selection, one-way 0 -> 1'),
-    'method': ('table', 'selected during the first iv_init; later only compatible fallbacks (C15)'),
-    'inited': ('int', 'one-way 0 -> 1'),
-    'iv_state_key_allocated': ('int', 'first iv_init is documented to complete before other threads call it'),
-}
-GLOBAL_OTHER = {   # globals that are neither lock-protected nor one-way flags, with the reason they are safe / out of scope
-    'fatal_msg_handler': 'set-up call, documented as not thread-safe configuration',
-    'iv_thread_debug': 'debug switch (configuration call)',
-    'last_offset': 'written only by constructors before iv_init (iv_tls_user_register is fatal afterwards)',
-    'sig_mask_fork': 'written in the atfork prepare handler, which holds sig_lock until parent/child',
-    'iv_active_fd': 'written under the active-fd mutex on the 0->1 edge; read while a reference is held',
-    'iv_tls_users': 'constructors only',
-    'iv_state_key': 'key object, written by pthread_key_create in first iv_init',
-    'iv_thread_key': 'key object, written under pthread_once',
-    'iv_thread_key_allocated': 'pthread_once control',
-    'iv_wait_lock': 'the lock itself', 'sig_lock': 'the lock itself', 'iv_fd_epoll_active_fd_mutex': 'the lock itself',
-}
+# two more are fields of private records and are found by role (Model._role_fields): the list iv_event_post links
+# an event into (pending list of the owner's loop state) and the per-thread tree iv_signal_register inserts a signal
+# interest into
 
 SIGNAL_SAFE_EXTERNAL = {'getpid', 'write', 'read', 'pthread_getspecific', 'pthread_spin_lock', 'pthread_spin_unlock',
                         'pthread_spin_trylock', '__errno_location', 'pthread_sigmask', 'sigprocmask'}
-FOREIGN_ALLOWED = {'event_list_mutex': 'the owner\'s list lock', 'events_pending': 'accessed under that lock',
-                   'events_kick': 'read of the kick descriptor', 'u': 'read of the epoll descriptor'}
-
-# calls that only read / only (re)initialise the object whose address they are given
+# calls that only read / only (re)initialise / modify the object whose address they are given
 READ_CALLS = {'iv_list_empty', 'iv_avl_tree_empty', 'iv_avl_tree_min', 'iv_avl_tree_max', 'iv_avl_tree_next', 'iv_avl_tree_prev'}
 INIT_CALLS = {'INIT_IV_LIST_HEAD'}
+MUTATOR_CALLS = {'iv_list_add', 'iv_list_add_tail', 'iv_list_del', 'iv_list_del_init', 'iv_list_splice', 'iv_list_splice_init',
+                 'iv_list_splice_tail', 'iv_list_splice_tail_init', '__iv_list_splice', '__iv_list_steal_elements',
+                 'iv_avl_tree_insert', 'iv_avl_tree_delete'}
+LOCK_OBJECT_CALLS = set(LOCK_FUNCS) | {'___mutex_init', '___mutex_destroy', 'spin_init', 'fallback_spin_init'}
 ANY = frozenset(['read', 'overwrite', 'rmw'])
 
 
@@ -93,132 +56,148 @@ def roots_of(prog):
     return [f for f in sorted(prog.all_funcs(), key=lambda f: f.q) if f.q not in called and f.file.endswith('.c')]
 
 
-def shared_accesses(e):
-    """[(location key)] shared locations touched by the event itself.  A node that copy propagation put in the
-    place of a read of a caching local (`_was`) is a read of that local, not of memory: the memory was read
-    where the local was assigned, and that load is an event of its own."""
-    exprs = []
+# --------------------------------------------------------------------------
+# accesses
+# --------------------------------------------------------------------------
+
+def access_items(e, al):
+    """[(object expression, kind)] the event itself touches; kind: read / overwrite (the old value is not used) /
+    rmw (everything else, incl. list and tree mutation) / lockop (the object is used as a lock) /
+    extern (address handed to a function we know nothing about)."""
     if e['ev'] == 'load':
-        exprs.append(e['e'])
-    elif e['ev'] == 'store':
-        exprs.append(e['lhs'])
-    elif e['ev'] == 'call':
-        for a in e.get('args', []):
-            a2 = strip(a)
-            if isinstance(a2, dict) and a2.get('k') == 'addr':
-                exprs.append(a2['e'])
+        return [(e['e'], 'read')]
+    if e['ev'] == 'store':
+        return [(e['lhs'], 'overwrite' if e.get('op') == '=' else 'rmw')]
+    if e['ev'] == 'call':
+        cal = e.get('callee')
+        kind = ('lockop' if cal in LOCK_OBJECT_CALLS else 'read' if cal in READ_CALLS else 'overwrite' if cal in INIT_CALLS
+                else 'rmw' if cal in MUTATOR_CALLS else 'extern')
+        out = []
+        lock_arg = LOCK_FUNCS[cal][1] if cal in LOCK_FUNCS else 0
+        for n, a in enumerate(e.get('args', [])):
+            t = h.pointee(a, al)
+            if t is not None:
+                out.append((t, kind if (kind != 'lockop' or n == lock_arg) else 'extern'))
+        return out
+    return []
+
+
+def keys_of(x, al, recs):
+    """keys of the locations an object expression names: (record, field) for every member step inside the object
+    (up to the pointer that is followed) whose record is in `recs`, and ('global', path tuple) when the path stays
+    inside a file-scope object.  A node that copy propagation put in the place of a read of a caching local (`_was`)
+    is a read of that local, not of memory: the memory was read where the local was assigned (an event of its own).
+    Pointers held in alias locals (`q = &pool->work_items; q->next`) are followed."""
     out = set()
-    for x in exprs:
-        y = x
-        # walk the access path itself
-        while isinstance(y, dict):
-            if y.get('_was'):
-                break
-            k = y.get('k')
-            if k == 'member':
-                key = (y.get('record'), y['field'])
-                if key in SHARED:
-                    out.add(key)
-                if y['arrow']:
+    y = x
+    n = 0
+    while isinstance(y, dict) and n < 64:
+        n += 1
+        k = y.get('k')
+        if y.get('_was') and k != 'addr':
+            return set()
+        if k == 'member':
+            if y.get('record') in recs:
+                out.add((y.get('record'), y['field']))
+            if y['arrow']:
+                t = h._alias_target(y['base'], al)
+                if t is None:
                     break
-                y = y['base']
-            elif k == 'index':
-                y = strip_load(y['base'])
-            elif k == 'var':
-                if y.get('vk') in ('global', 'staticlocal') and ('global', y['name']) in SHARED:
-                    out.add(('global', y['name']))
-                break
-            elif k in ('cast', 'addr', 'load'):
-                y = y['e']
+                y = t
             else:
+                y = y['base']
+        elif k == 'index':
+            y = strip_load(y['base'])
+        elif k == 'deref':
+            t = h._alias_target(y['e'], al)
+            if t is None:
                 break
+            y = t
+        elif k in ('cast', 'load', 'paren'):
+            y = y['e']
+        else:
+            break
+    gp = h.gpath(x, al)
+    if gp is not None:
+        out.add(('global', gp))
     return out
 
 
-def access_kind(e):
-    """read / overwrite (the old value is not used) / rmw (everything else, incl. list and tree mutation)."""
-    if e['ev'] == 'load':
-        return 'read'
-    if e['ev'] == 'store':
-        return 'overwrite' if e.get('op') == '=' else 'rmw'
-    if e.get('callee') in READ_CALLS:
-        return 'read'
-    if e.get('callee') in INIT_CALLS:
-        return 'overwrite'
-    return 'rmw'
-
-
-def _addr_member_arg(e, key, callees=None, argi=None):
-    """call event passing the address of a `key` member (record, field)"""
+def _arg_names(e, key, al, callees=None, argi=None):
+    """call event one of whose (address) arguments names a location with `key`"""
     if e['ev'] != 'call' or (callees is not None and e.get('callee') not in callees):
         return False
-    args = e.get('args', [])
-    for i, a in enumerate(args):
+    for i, a in enumerate(e.get('args', [])):
         if argi is not None and i != argi:
             continue
-        a2 = strip(a)
-        if isinstance(a2, dict) and a2.get('k') == 'addr' and last_member(a2['e']) == key:
-            return True
+        t = h.pointee(a, al)
+        if t is not None:
+            y = strip(t)
+            if isinstance(y, dict) and y.get('k') == 'member' and (y.get('record'), y['field']) == key:
+                return True
     return False
 
 
-def _publishes_pool(e):
+def _publishes_pool(e, al):
     return e['ev'] == 'store' and last_member(e['lhs']) == ('iv_work_pool', 'priv') and 'rhs' in e and not is_null(e['rhs'])
 
 
-def _publishes_interest(e):
-    return _addr_member_arg(e, ('iv_wait_interest', 'avl_node'), ('iv_avl_tree_insert',))
+def _publishes_interest(e, al):
+    return _arg_names(e, ('iv_wait_interest', 'avl_node'), al, ('iv_avl_tree_insert',))
 
 
-def _links_thread(e):
-    return _addr_member_arg(e, ('work_pool_thread', 'list'), ('iv_list_add', 'iv_list_add_tail'), 0)
+def _creates_thread(e):
+    return e['ev'] in ('call', 'enter') and e.get('callee') in h.THREAD_CREATE
 
 
-def exemptions(prog):
-    """Unlocked accesses that are nevertheless race-free, each with the role of the code that may make them
-    (`within`: the innermost stable frame of the access; `root`: the entry point), the kind of access, an optional
-    condition on the path (`unless_after`: must not follow that event; `after_release`: every path released that lock before)
-    and the reason.  Roles are resolved against the program: API names, or what the function is used for."""
-    def A(*names):
-        return {f.q for f in h.api(prog, *names)}
-
-    def R(fs, what):
-        fs = [f for f in fs if f is not None]
-        if not fs:
-            raise AnalysisBroken('no function in the role "%s"' % what)
-        return {f.q for f in fs}
-    return [
-        dict(within=A('iv_event_register'), loc=('iv_event', 'list'), kinds={'overwrite'},
-             why='initialisation before the event is published (no poster can hold it yet)'),
-        dict(within=A('iv_event_unregister'), loc=('iv_event', 'list'), kinds={'read'},
-             why='emptiness read: posters must be quiescent when an event is unregistered (documented); owner-side mutation happens in this thread'),
-        dict(within=A('iv_event_init'), loc=('iv_state', 'events_pending'), kinds={'overwrite'}, why='state block not yet published'),
-        dict(within=A('iv_work_pool_create'), loc='work_pool_priv.*', kinds={'overwrite'}, unless_after=('pool published', _publishes_pool),
-             why='pool not yet published (this->priv is stored last)'),
-        dict(within=R(h.thread_bodies(prog), 'thread body'), loc='work_pool_thread.*', kinds={'overwrite'},
-             unless_after=('thread record linked', _links_thread),
-             why='thread record reachable by others only through the idle list, linked later under the lock'),
-        dict(within=R(h.installed_at(prog, [('iv_event', 'handler'), ('work_pool_priv', 'ev')]), 'handler of the pool\'s completion event'),
-             loc=('work_pool_priv', 'shutting_down'), kinds={'read'}, owner_only=A('iv_work_pool_create', 'iv_work_pool_put'),
-             why='written only by the owner thread; this is the owner thread reading it'),
-        dict(within=A('iv_wait_interest_register', 'iv_wait_interest_register_spawn'), loc='iv_wait_interest.*', kinds={'overwrite'},
-             unless_after=('interest inserted into the tree', _publishes_interest),
-             why='initialisation before the tree insertion publishes the interest'),
-        dict(within=A('iv_wait_interest_unregister', 'iv_wait_interest_register_spawn'), loc=('iv_wait_interest', 'events_pending'), kinds=ANY,
-             after_release=WAIT,
-             why='after removal from the tree under the lock the reaper cannot reach the interest'),
-        dict(within=R([x[0] for x in h.signal_installs(prog)], 'process signal handler'), loc=('global', 'sig_owner_pid'), kinds={'read'},
-             why='stored before the first handler can be installed; later stores only after fork in the child'),
-        dict(root=R(h.constructors(prog), 'constructor'), loc='*', kinds=ANY, why='constructor: runs before any thread exists'),
-        dict(within=R(h.initialiser_hooks(prog, 'iv_tls_user', 'init_thread'), 'tls init_thread hook'),
-             loc=('iv_signal_thr_info', 'thr_sigs'), kinds={'overwrite'},
-             why='per-thread area initialised before the thread can register interests'),
-        dict(fork_child=True, loc='*', kinds=ANY, why='post-fork child is single-threaded'),
-    ]
+def _allocates(e):
+    if e['ev'] != 'store' or 'rhs' not in e:
+        return False
+    v = strip(e['rhs'])
+    return isinstance(v, dict) and v.get('k') == 'call' and v.get('callee') in ('malloc', 'calloc')
 
 
-def _loc_matches(loc, key):
-    return loc == '*' or loc == key or (isinstance(loc, str) and loc.endswith('.*') and key[0] == loc[:-2])
+def _base_var(x, rec, al):
+    """name of the pointer variable through which the object of type `rec` is reached in the access path x"""
+    y = x
+    n = 0
+    while isinstance(y, dict) and n < 64:
+        n += 1
+        k = y.get('k')
+        if k == 'member':
+            if y['arrow']:
+                t = h._alias_target(y['base'], al)
+                if t is not None:
+                    y = t
+                    continue
+                b = strip(y['base'])
+                if y.get('record') == rec and isinstance(b, dict) and b.get('k') == 'var':
+                    return b['name']
+                return None
+            y = y['base']
+        elif k == 'index':
+            y = strip_load(y['base'])
+        elif k in ('cast', 'load', 'paren'):
+            y = y['e']
+        else:
+            return None
+    return None
+
+
+class Access:
+    __slots__ = ('key', 'kind', 'e', 'x', 'cx', 'b', 'i', 'H', 'anchor')
+
+    def __init__(self, key, kind, e, x, cx, b, i, H, anchor):
+        self.key, self.kind, self.e, self.x, self.cx, self.b, self.i, self.H, self.anchor = key, kind, e, x, cx, b, i, H, anchor
+
+    @property
+    def initial(self):
+        """made where no second thread can exist: by a constructor, or in the child of a fork()"""
+        return bool(self.cx.root.constructor) or self.cx.child(self.b, self.i)
+
+    @property
+    def loc(self):
+        return self.e.get('loc')
 
 
 class Context:
@@ -228,7 +207,8 @@ class Context:
         self.root = root
         self.g = Inliner(prog, expand_methods=True).inline(root)
         self.entry = frozenset()
-        self.eff = h.lock_effect_in(self.g)      # lock_effect with lock pointers held in locals resolved
+        self.al = h.addr_aliases(self.g)
+        self.eff = h.lock_effect_in(self.g)      # lock identities by object, lock pointers in locals resolved
         self._ls = None
         self._memo = {}
         self._child = None
@@ -244,17 +224,48 @@ class Context:
             self._child = h.fork_child(self.g) if h.has_fork(self.g) else {}
         return bool(self._child.get((b, i)))
 
-    def may_follow(self, name, pred, b, i):
+    def may_follow(self, name, pred, b, i, reset=None):
         k = ('may', name)
         if k not in self._memo:
-            self._memo[k] = h.may_follow(self.g, pred)
+            self._memo[k] = h.may_follow(self.g, lambda e: pred(e, self.al), reset=(lambda e: reset(e, self.al)) if reset else None)
         return bool(self._memo[k].get((b, i)))
 
     def must_follow(self, name, pred, b, i):
         k = ('must', name)
         if k not in self._memo:
-            self._memo[k] = h.must_follow(self.g, pred)
+            self._memo[k] = h.must_follow(self.g, lambda e: pred(e, self.al))
         return bool(self._memo[k].get((b, i)))
+
+    def fresh(self, bname, b, i):
+        """statuses of the record `bname` points to -- {1}: it was allocated in this context on every path to the point
+        and no thread was created since (nobody else can hold a pointer to it); 0 in the set: not allocated here on
+        some path; 2: a thread was created since.  The pointer may have been copied from the variable that received
+        the allocation (`thr = alloc_helper()`, an out-parameter)."""
+        k = 'fresh'
+        if k not in self._memo:
+            def tr(x, S):
+                if x['ev'] == 'store':
+                    l = h._lhs_var(x['lhs'])
+                    if l is not None:
+                        S = frozenset(p for p in S if p[0] != l['name'])
+                        if _allocates(x):
+                            return S | {(l['name'], 1)}
+                        r = strip(x['rhs']) if x.get('op') == '=' and 'rhs' in x else None
+                        if isinstance(r, dict) and r.get('k') == 'var':
+                            return S | {(l['name'], st) for (v, st) in S if v == r['name']}
+                    return S
+                if _creates_thread(x):
+                    return frozenset((v, 2 if st == 1 else st) for (v, st) in S)
+                return S
+
+            def join(a, b2):
+                if a == b2:
+                    return a
+                va, vb = {v for v, _ in a}, {v for v, _ in b2}
+                return a | b2 | {(v, 0) for v in va ^ vb}
+            _, self._memo[k] = forward(self.g, frozenset(), tr, join)
+        S = self._memo[k].get((b, i)) or frozenset()
+        return frozenset(st for (v, st) in S if v == bname) or frozenset([0])
 
     def points(self):
         for b, blk in self.g.blocks.items():
@@ -264,46 +275,79 @@ class Context:
                     yield b, i, e, held(S)
 
 
-def signal_mask_full(prog, graphs, store):
-    """The sigaction object that `store` puts a handler into has its sa_mask filled (all signals blocked while the
-    handler runs) on every path to the sigaction() call that installs it, in every entry point that contains the store."""
-    res = [_mask_full_in(g, store) for g in graphs]
-    res = [r for r in res if r is not None]
-    return bool(res) and all(res)
+# --------------------------------------------------------------------------
+# entry locksets (signal handler, atfork handlers)
+# --------------------------------------------------------------------------
+
+def _sa_store(e):
+    if e['ev'] != 'store' or 'rhs' not in e:
+        return None
+    lm = last_member(e['lhs'])
+    if not lm or lm[1] not in ('sa_handler', 'sa_sigaction'):
+        return None
+    rt = lvalue_root(e['lhs'])
+    return rt['name'] if rt is not None else ''
 
 
-def _mask_full_in(g, store):
-    ok_all = True
-    found = False
-    for e in g.events():
-        if not (e['ev'] == 'store' and e.get('loc') == store.get('loc') and last_member(e['lhs']) == last_member(store['lhs'])):
-            continue
-        rt = lvalue_root(e['lhs'])
-        found = True
-        if rt is None:
-            return False
-        name = rt['name']
+def handler_masks(prog, graphs):
+    """{handler q-name: bool}: every installation of the function as a process signal handler blocks all signals
+    while it runs: for every store `X.sa_handler = f`, on every feasible path from that store to a sigaction() call
+    that is given &X, X.sa_mask was filled (sigfillset) and not emptied/changed since.  Evaluated in the inlined
+    entry points, so a set-up helper that receives the handler (or the signal number) as a parameter is judged with
+    the argument it is called with: `handler == SIG_DFL` is false for a function."""
+    masks = {}
+    for g in graphs:
+        stores = []
+        for e in g.events():
+            nm = _sa_store(e)
+            if nm is None:
+                continue
+            f = h.func_node(prog, prog.funcs.get(e.get('fn')) or g, e['rhs'])
+            if f is not None:
+                stores.append((e, nm, f))
+        for (se, name, hf) in stores:
+            if not name:
+                masks[hf.q] = False
+                continue
 
-        def fills(x, name=name):
-            if x['ev'] != 'call' or x.get('callee') != 'sigfillset' or not x.get('args'):
+            def mask_arg(x, callees, name=name):
+                if x['ev'] != 'call' or x.get('callee') not in callees or not x.get('args'):
+                    return False
+                t = h.pointee(x['args'][0], None)
+                if t is None:
+                    return False
+                r2 = lvalue_root(t)
+                lm = last_member(t)
+                return r2 is not None and r2['name'] == name and lm is not None and lm[1] == 'sa_mask'
+
+            def fills(x):
+                return mask_arg(x, ('sigfillset',))
+
+            def spoils(x):
+                if mask_arg(x, ('sigemptyset', 'sigdelset', 'sigaddset')):
+                    return True
+                if x['ev'] == 'store':
+                    r2 = lvalue_root(x['lhs'])
+                    return r2 is not None and r2['name'] == name and ('sa_mask' in [s[1] for s in lvalue_steps(x['lhs'])]
+                                                                     or strip(x['lhs']).get('k') == 'var')
                 return False
-            a = strip(x['args'][0])
-            if not (isinstance(a, dict) and a.get('k') == 'addr'):
-                return False
-            r2 = lvalue_root(a['e'])
-            lm = last_member(a['e'])
-            return r2 is not None and r2['name'] == name and lm is not None and lm[1] == 'sa_mask'
-        if not any(fills(x) for x in g.events()):
-            return False
-        mf = h.must_follow(g, fills)
-        for x in g.events():
-            if x['ev'] == 'call' and x.get('callee') == 'sigaction' and len(x.get('args', [])) >= 2:
-                a = strip(x['args'][1])
-                if isinstance(a, dict) and a.get('k') == 'addr':
-                    r2 = lvalue_root(a['e'])
-                    if r2 is not None and r2['name'] == name and not mf.get((x['_b'], x['_i'])):
-                        ok_all = False
-    return (found and ok_all) if found else None
+            filled = h.must_follow(g, fills, reset=spoils)
+            armed = h.may_follow(g, lambda x, se=se: x is se)
+            ok = True
+            seen = False
+            for x in g.events():
+                if x['ev'] == 'call' and x.get('callee') == 'sigaction' and len(x.get('args', [])) >= 2:
+                    t = h.pointee(x['args'][1], None)
+                    r2 = lvalue_root(t) if t is not None else None
+                    if r2 is not None and r2['name'] == name and armed.get((x['_b'], x['_i'])):
+                        seen = True
+                        if not filled.get((x['_b'], x['_i'])):
+                            ok = False
+            if seen:
+                masks[hf.q] = masks.get(hf.q, True) and ok
+            else:
+                masks.setdefault(hf.q, masks.get(hf.q, True))
+    return masks
 
 
 def entry_locksets(prog, graphs):
@@ -311,10 +355,9 @@ def entry_locksets(prog, graphs):
        * a process signal handler installed with a full sa_mask runs with all signals blocked;
        * the atfork parent/child handlers run with what the prepare handler leaves held."""
     entry = {}
-    masks = {}
+    masks = handler_masks(prog, graphs)
     for (hf, inst, e) in h.signal_installs(prog):
-        ok = signal_mask_full(prog, graphs, e)
-        masks[hf.q] = masks.get(hf.q, True) and ok
+        masks.setdefault(hf.q, False)
     for q, ok in masks.items():
         entry[q] = frozenset([SIGBLOCK]) if ok else frozenset()
     for (prep, parent, child) in h.atfork_triples(prog):
@@ -336,39 +379,396 @@ def contexts(prog):
         entry, masks = entry_locksets(prog, [cx.g for cx in c])
         for cx in c:
             cx.entry = entry.get(cx.root.q, frozenset())
+        # functions that are only entered through a file-scope dispatch table (`ops[kind].fn(x)`) run with what is
+        # held at every indirect call through that table (the inliner cannot expand those calls)
+        only = h.table_only_functions(prog)
+        if only:
+            by_root = {cx.root.q: cx for cx in c}
+            for _round in range(2):
+                seen = {}
+                for cx in c:
+                    for b, i, e, H in cx.points():
+                        ts = h.table_call_targets(prog, e, cx.al) if e['ev'] == 'call' and 'fnexpr' in e else None
+                        for t in ts or ():
+                            if t.q in only:
+                                seen[t.q] = (seen[t.q] & H) if t.q in seen else frozenset(H)
+                changed = False
+                for q, H in seen.items():
+                    cx = by_root.get(q)
+                    if cx is not None and cx.entry != frozenset(H):
+                        cx.entry = frozenset(H)
+                        cx._ls = None
+                        changed = True
+                if not changed:
+                    break
         prog._c14_contexts = c
         prog._c14_masks = masks
     return c
 
 
-def run(ctx):
-    ctx.rule('R-C14a', 'lockset must-hold: every access to a shared location (table) is made with its lock in the '
-                       'must-held lockset, in every calling context from every entry point (public API, handlers, thread bodies, '
-                       'constructors); exemptions name a role, an access kind, a path condition and one reason', floor=65)
-    ctx.rule('R-C14a.tbl', 'every field of the cross-thread record types is classified (lock-protected / immutable after '
-                           'publication / own synchronisation); an unclassified new field is a report', floor=20)
-    ctx.rule('R-C14b', 'foreign-state confinement: through an event\'s owner pointer a poster touches only the owner\'s list lock, '
-                       'the pending list (locked) and the read-only kick descriptors', floor=3)
-    ctx.rule('R-C14c', 'file-scope variables written outside lock regions are one-way flags: every store writes a constant and the '
-                       'value transitions allowed by the guards form no cycle (method: addresses of method tables, first selection or '
-                       'fallback by the running method); every other global is classified', floor=12)
-    ctx.rule('R-C14d', 'signal context: everything the process signal handler can reach is async-signal-safe (no mutex, no allocation); '
-                       'it is installed with all signals blocked', floor=5)
-    ctx.rule('R-C14e', 'lock order: the held->acquired graph over all entry points is acyclic; no user callback under a lock '
-                       'except the tabled thread_stop hook', floor=3)
-    ctx.section(lockset_rule)
-    ctx.section(classification)
-    ctx.section(confinement)
-    ctx.section(one_way)
-    ctx.section(signal_context)
-    ctx.section(active_fd)
+# --------------------------------------------------------------------------
+# the model: all accesses in all contexts, roles, derived locks
+# --------------------------------------------------------------------------
+
+def pool_records(prog):
+    """(pool record, thread record) of the work pool, by role: the record whose address iv_work_pool_create
+    publishes in iv_work_pool.priv, and the record that points to it and is handed to the threads created for it."""
+    pools = set()
+    for f in prog.all_funcs():
+        for e in f.events():
+            if e['ev'] == 'store' and 'rhs' in e and last_member(e['lhs']) == ('iv_work_pool', 'priv'):
+                v = strip(e['rhs'])
+                if isinstance(v, dict) and v.get('record') and v.get('ptr'):
+                    pools.add(v['record'])
+    if len(pools) != 1:
+        raise AnalysisBroken('work pool: the record published in iv_work_pool.priv is not unique: %s' % sorted(pools))
+    P = pools.pop()
+    thrs = set()
+    for (f, e, fs) in h.call_func_args(prog, h.THREAD_CREATE):
+        for a in e.get('args', []):
+            v = strip(a)
+            if isinstance(v, dict) and v.get('record') and v.get('ptr'):
+                r = prog.records.get(v['record'], {})
+                if any(fl.get('record') == P and fl.get('ptr') for fl in r.get('fields', [])):
+                    thrs.add(v['record'])
+    if len(thrs) != 1:
+        raise AnalysisBroken('work pool: the record handed to the pool\'s threads is not unique: %s' % sorted(thrs))
+    return P, thrs.pop()
 
 
-def find_exemption(exs, cx, anchor, key, kind, b, i):
+class Model:
+    def __init__(self, prog):
+        self.prog = prog
+        self.cxs = contexts(prog)
+        self.errors = []               # anchors that vanished: reported by the section that needs them, after everything else
+        try:
+            self.P, self.T = pool_records(prog)
+        except AnalysisBroken as e:
+            self.P = self.T = None
+            self.errors.append(str(e))
+        self._role_fields()
+        self.fields = dict(PROTECTED_FIELDS)
+        for k in self.pending:
+            self.fields[k] = 'pending list of posted events'
+        for k in self.thr_trees:
+            self.fields[k] = 'per-thread signal interests'
+        self.recs = {r for (r, _) in self.fields} | ({self.P, self.T} - {None})
+        self.order_edges = {}
+        self.user_under_lock = []
+        raw = []
+        lock_keys = set()
+        self.lock_holders = set()      # fields that contain a lock object
+        gpaths = set()
+        self.pid_keys = set()          # file-scope locations that hold the owner's process id (assigned from getpid())
+        self.stepped = {}              # global path -> {(op, frozenset(frames))}: ++/-- stores
+        # function-pointer fields that hold a copy of a caller-supplied hook of a public record (`pool->stop = this->thread_stop`)
+        from ..analyses import CALLBACK_FIELDS, HOOK_FIELDS
+        self.hook_src = {}
+        for f in prog.all_funcs():
+            for e in f.events():
+                if e['ev'] == 'store' and e.get('op') == '=' and 'rhs' in e:
+                    src, dst = last_member(e['rhs']), last_member(e['lhs'])
+                    if dst and src and (src in CALLBACK_FIELDS or src in HOOK_FIELDS) and dst != src:
+                        self.hook_src[dst] = src
+        for cx in self.cxs:
+            r = cx.root
+            pidlocals = set()
+            for e in cx.g.events():
+                if e['ev'] == 'store' and 'rhs' in e:
+                    v = strip(e['rhs'])
+                    l = strip(e['lhs'])
+                    if isinstance(v, dict) and v.get('k') == 'call' and v.get('callee') == 'getpid' and l.get('k') == 'var':
+                        pidlocals.add(l['name'])
+            for b, i, e, H in cx.points():
+                for (op, lid) in cx.eff(e):
+                    if op == 'lock' and lid != SIGBLOCK:
+                        for hl in H:
+                            if hl != SIGBLOCK and hl != lid:
+                                self.order_edges.setdefault((hl, lid), (e, r))
+                if e['ev'] == 'call' and 'fnexpr' in e:
+                    ck = callback_kind(e)
+                    if ck and ck[0] == 'unknown' and last_member(e['fnexpr']) in self.hook_src:
+                        ck = ('hook', 'copy of %s.%s' % self.hook_src[last_member(e['fnexpr'])])
+                    if ck and ck[0] in ('callback', 'hook', 'param') and (H - {SIGBLOCK}):
+                        self.user_under_lock.append((e, r, H - {SIGBLOCK}, ck, cx.child(b, i)))
+                items = access_items(e, cx.al)
+                if not items:
+                    continue
+                anchor = None
+                for (x, kind) in items:
+                    for key in keys_of(x, cx.al, self.recs):
+                        if kind == 'lockop':
+                            # the lock object itself: the innermost step of the path (a sub-struct that holds a lock
+                            # and data is not a lock), or the file-scope path
+                            lm = last_member(x)
+                            if key[0] == 'global' or key == lm:
+                                lock_keys.add(key)
+                            else:
+                                self.lock_holders.add(key)
+                            continue
+                        if kind == 'extern' and key[0] == 'global':
+                            continue       # key objects, once controls, signal sets: the callee synchronises / kernel interface
+                        if kind == 'extern':
+                            kind2 = 'rmw'
+                        else:
+                            kind2 = kind
+                        if anchor is None:
+                            anchor = h.anchor_frame(prog, e, r)
+                        raw.append(Access(key, kind2, e, x, cx, b, i, H, anchor))
+                        if key[0] == 'global':
+                            gpaths.add(key[1])
+                            if e['ev'] == 'store' and 'rhs' in e:
+                                v = strip(e['rhs'])
+                                if isinstance(v, dict) and ((v.get('k') == 'call' and v.get('callee') == 'getpid') or
+                                                            (v.get('k') == 'var' and v['name'] in pidlocals)):
+                                    self.pid_keys.add(key[1])
+        # file-scope locations: an access to an object is an access to every part of it, so paths one of which is
+        # a prefix of the other are one location (named by the shortest accessed path); lock objects stay apart
+        self.lock_objects = {k for k in lock_keys}
+        lockpaths = {k[1] for k in lock_keys if k[0] == 'global'}
+        gpaths -= lockpaths
+        unit = {}
+        for p in sorted(gpaths, key=len):
+            u = p
+            for n in range(1, len(p)):
+                if p[:n] in gpaths:
+                    u = p[:n]
+                    break
+            unit[p] = u
+        self.by_key = {}
+        for a in raw:
+            if a.key[0] == 'global':
+                if a.key[1] in lockpaths or any(a.key[1][:n] in lockpaths for n in range(1, len(a.key[1]))):
+                    continue
+                a.key = ('global', '.'.join(unit[a.key[1]]))
+            elif a.key in lock_keys:
+                continue
+            self.by_key.setdefault(a.key, []).append(a)
+        self.pid_keys = {('global', '.'.join(unit[p])) for p in self.pid_keys if p in unit}
+        self._lock = {}
+        self._roles()
+
+    def _role_fields(self):
+        """(record, field) of the pending list that iv_event_post links `iv_event.list` into, and of the trees inside
+        heap/thread objects that iv_signal_register inserts `iv_signal.an` into"""
+        prog = self.prog
+        post = h.api(prog, 'iv_event_post')[0].q
+        reg = h.api(prog, 'iv_signal_register')[0].q
+        self.pending, self.thr_trees = set(), set()
+        def head_of(x, al):
+            """x is `H.next` / `H.prev` of a list head H (possibly through an alias pointer): the expression H"""
+            y = strip(x)
+            if not (isinstance(y, dict) and y.get('k') == 'member' and y.get('record') == 'iv_list_head' and y['field'] in ('next', 'prev')):
+                return None
+            if y['arrow']:
+                return h._alias_target(y['base'], al)
+            return y['base']
+        for cx in self.cxs:
+            if cx.root.q not in (post, reg):
+                continue
+            for e in cx.g.events():
+                if cx.root.q == post and e['ev'] == 'store' and e.get('op') == '=' and 'rhs' in e:
+                    # the open-coded link: `node->next = &X` / `X.prev = node` with node the event's list member
+                    a_, b_ = head_of(e['lhs'], cx.al), h.pointee(e['rhs'], cx.al)
+                    if a_ is not None and b_ is not None:
+                        for (u, v) in ((a_, b_), (b_, a_)):
+                            lm = last_member(v)
+                            if last_member(u) == ('iv_event', 'list') and lm and lm != ('iv_event', 'list') and \
+                                    strip(v).get('trecord') == 'iv_list_head' and h.gpath(v, cx.al) is None:
+                                self.pending.add(lm)
+                if e['ev'] != 'call' or len(e.get('args', [])) < 2:
+                    continue
+                if cx.root.q == post and e.get('callee') in ('iv_list_add_tail', 'iv_list_add'):
+                    t0 = h.pointee(e['args'][0], cx.al)
+                    if t0 is not None and last_member(t0) == ('iv_event', 'list'):
+                        for t1 in h.addr_targets(cx.g, e['args'][1], cx.al):
+                            lm = last_member(t1)
+                            if lm and h.gpath(t1, cx.al) is None:
+                                self.pending.add(lm)
+                if cx.root.q == reg and e.get('callee') == 'iv_avl_tree_insert':
+                    t1 = h.pointee(e['args'][1], cx.al)
+                    if t1 is not None and last_member(t1) == ('iv_signal', 'an'):
+                        for t0 in h.addr_targets(cx.g, e['args'][0], cx.al):
+                            lm = last_member(t0)
+                            if lm and h.gpath(t0, cx.al) is None:
+                                self.thr_trees.add(lm)
+        if not self.pending:
+            self.errors.append('iv_event_post: the list an event is linked into was not found')
+        if not self.thr_trees:
+            self.errors.append('iv_signal_register: the per-thread tree a signal interest is inserted into was not found')
+
+    # -- derived lock of a location ------------------------------------------------
+    def lock_of(self, key):
+        """The lock that protects a location: among the locks that are held (in every context) at a site that modifies
+        it, the one held at most of its access sites.  SIGNALS-BLOCKED only excludes the signal handler of the same
+        thread: it cannot protect a file-scope location.  None: no modification is made under a lock."""
+        if key in self._lock:
+            return self._lock[key]
+        accs = [a for a in self.by_key.get(key, ()) if not a.initial]
+
+        def site_sets(sel):
+            sites = {}
+            for a in accs:
+                if sel(a):
+                    sites[a.loc] = (sites[a.loc] & a.H) if a.loc in sites else frozenset(a.H)
+            return sites
+        w = site_sets(lambda a: a.kind != 'read')
+        cands = set()
+        for M in w.values():
+            cands |= M
+        if key[0] == 'global':
+            cands.discard(SIGBLOCK)
+        L = None
+        if cands:
+            alls = site_sets(lambda a: True)
+            L = max(sorted(cands), key=lambda l: (sum(1 for M in alls.values() if l in M), l != SIGBLOCK))
+        self._lock[key] = L
+        return L
+
+    # -- roles of file-scope locations -------------------------------------------
+    def _roles(self):
+        prog = self.prog
+        self.slot_fns = set()
+        for t, slots in prog.method_tables().items():
+            for s_, v in slots.items():
+                if v and v[0] != 'str':
+                    fn = prog.resolve(v[0], v[1])
+                    if fn is not None:
+                        self.slot_fns.add(fn.q)
+        on = {f.q for f in prog.slot_targets('event_rx_on')}
+        off = {f.q for f in prog.slot_targets('event_rx_off')}
+        on_ops, off_ops, made = {}, {}, set()
+        UP, DOWN = ('++', '+='), ('--', '-=')
+        for key, lst in self.by_key.items():
+            if key[0] != 'global':
+                continue
+            for a in lst:
+                if a.e['ev'] != 'store':
+                    continue
+                fr = set(h.frames(a.e, a.cx.root))
+                op = a.e.get('op')
+                if op in UP + DOWN and fr & on:
+                    on_ops.setdefault(key, set()).add('up' if op in UP else 'down')
+                if op in UP + DOWN and fr & off:
+                    off_ops.setdefault(key, set()).add('up' if op in UP else 'down')
+                if op == '=' and fr & on and 'rhs' in a.e and h._intval(a.e['rhs']) is None:
+                    made.add(key)
+        # reference count of the shared wake-up descriptor: event_rx_off steps it in one direction only (the drop),
+        # event_rx_on steps it the other way (the take; its failure path may drop again).  Whether the count runs up
+        # or down is immaterial.  The descriptor: what event_rx_on (re)creates.
+        self.refcounts = set()
+        self.take_ops = {}
+        for key, ops in off_ops.items():
+            if len(ops) == 1:
+                take = 'down' if ops == {'up'} else 'up'
+                if take in on_ops.get(key, ()):
+                    self.refcounts.add(key)
+                    self.take_ops[key] = UP if take == 'up' else DOWN
+        self.descriptors = made - self.refcounts
+
+    def enters_slot(self, e, al):
+        """a poll-method slot function is entered: each activation of event_rx_on/off/send is judged on its own"""
+        return e['ev'] == 'enter' and bool(set(e.get('targets', ())) & self.slot_fns)
+
+    def drops_reference(self, e, al):
+        """a store to the reference count other than the step that takes a reference"""
+        if e['ev'] != 'store':
+            return False
+        gp = h.gpath(e['lhs'], al)
+        if gp is None:
+            return False
+        p = '.'.join(gp)
+        for k in self.refcounts:
+            if k[1] == p or k[1].startswith(p + '.') or p.startswith(k[1] + '.'):
+                if e.get('op') not in self.take_ops[k]:
+                    return True
+        return False
+
+
+def model(prog):
+    m = getattr(prog, '_c14_model', None)
+    if m is None:
+        m = Model(prog)
+        prog._c14_model = m
+    return m
+
+
+# --------------------------------------------------------------------------
+# exemptions
+# --------------------------------------------------------------------------
+
+def exemptions(prog, M):
+    """Unlocked accesses that are nevertheless race-free, each with the role of the code that may make them
+    (`within`: the innermost stable frame of the access; `root`: the entry point), the kind of access, an optional
+    condition on the path (`unless_after`: must not follow that event; `after_release`: every path released the
+    location's lock before; `fresh`: the object was allocated in this context and no thread was created since)
+    and the reason.  Roles are resolved against the program: API names, or what the function is used for.
+    `prepub`: the exemption describes initialisation before the object is published."""
+    def A(*names):
+        return {f.q for f in h.api(prog, *names)}
+
+    def R(fs, what):
+        # (an empty role exempts nothing: the accesses it was meant for are then reported)
+        return {f.q for f in fs if f is not None}
+    P, T = M.P or '<no pool record>', M.T or '<no thread record>'
+
+    def links_thread(e, al):
+        if e['ev'] != 'call' or e.get('callee') not in ('iv_list_add', 'iv_list_add_tail') or not e.get('args'):
+            return False
+        t = h.pointee(e['args'][0], al)
+        y = strip(t) if t is not None else None
+        return isinstance(y, dict) and y.get('k') == 'member' and y.get('record') == T
+    pool_handlers = [f for f in h.installed_at(prog, [('iv_event', 'handler'), (P, None)])]
+    return [
+        dict(within=A('iv_event_register'), loc=('iv_event', 'list'), kinds={'overwrite'}, prepub=True,
+             why='initialisation before the event is published (no poster can hold it yet)'),
+        dict(within=A('iv_event_unregister'), loc=('iv_event', 'list'), kinds={'read'},
+             why='emptiness read: posters must be quiescent when an event is unregistered (documented); owner-side mutation happens in this thread'),
+        dict(within={f.q for f in prog.all_funcs() if h.only_via(prog, f, A('iv_init'))}, locs=M.pending, kinds={'overwrite'}, prepub=True,
+             why='state block not yet published (initialised as part of iv_init)'),
+        dict(within=A('iv_work_pool_create'), loc=P + '.*', kinds={'overwrite'}, unless_after=('pool published', _publishes_pool), prepub=True,
+             why='pool not yet published (this->priv is stored last)'),
+        dict(within=R(h.thread_bodies(prog), 'thread body'), loc=T + '.*', kinds={'overwrite'},
+             unless_after=('thread record linked', links_thread), prepub=True,
+             why='thread record reachable by others only through the idle list, linked later under the lock'),
+        dict(loc=T + '.*', kinds={'overwrite'}, fresh=T, prepub=True,
+             why='record allocated here and not yet handed to the thread that is created for it'),
+        dict(within=R(pool_handlers, 'handler of an event of the pool'),
+             loc=P + '.*', kinds={'read'}, owner_only=A('iv_work_pool_create', 'iv_work_pool_put'),
+             why='written only by the owner thread; this is the owner thread reading it'),
+        dict(within=A('iv_wait_interest_register', 'iv_wait_interest_register_spawn'), loc='iv_wait_interest.*', kinds={'overwrite'},
+             unless_after=('interest inserted into the tree', _publishes_interest), prepub=True,
+             why='initialisation before the tree insertion publishes the interest'),
+        dict(within=A('iv_wait_interest_unregister', 'iv_wait_interest_register_spawn'), loc=('iv_wait_interest', 'events_pending'), kinds=ANY,
+             after_release=True,
+             why='after removal from the tree under the lock the reaper cannot reach the interest'),
+        dict(within=R([x[0] for x in h.signal_installs(prog)], 'process signal handler'), locs=M.pid_keys, kinds={'read'},
+             why='owner pid: stored before the first handler can be installed; later stores only after fork in the child'),
+        dict(root=R(h.constructors(prog), 'constructor'), loc='*', kinds=ANY, why='constructor: runs before any thread exists'),
+        dict(within=R(h.initialiser_hooks(prog, 'iv_tls_user', 'init_thread'), 'tls init_thread hook'),
+             locs=M.thr_trees, kinds={'overwrite'},
+             why='per-thread area initialised before the thread can register interests'),
+        dict(fork_child=True, loc='*', kinds=ANY, why='post-fork child is single-threaded'),
+        dict(locs=M.descriptors, kinds={'read'}, unless_after=('own reference dropped', M.drops_reference, M.enters_slot),
+             why='shared wake-up descriptor: read while this thread holds a reference (it is re-created only on the 0 -> 1 edge)'),
+    ]
+
+
+def _loc_matches(x, key):
+    if 'locs' in x:
+        return key in x['locs']
+    loc = x['loc']
+    return loc == '*' or loc == key or (isinstance(loc, str) and loc.endswith('.*') and key[0] == loc[:-2])
+
+
+def find_exemption(exs, M, a, any_kind=False, only_prepub=False):
     """(exemption, None) or (None, why the nearest candidate does not apply)"""
     miss = None
+    cx, b, i = a.cx, a.b, a.i
     for x in exs:
-        if not _loc_matches(x['loc'], key):
+        if only_prepub and not x.get('prepub'):
+            continue
+        if not _loc_matches(x, a.key):
             continue
         if x.get('fork_child'):
             if not cx.child(b, i):
@@ -376,87 +776,228 @@ def find_exemption(exs, cx, anchor, key, kind, b, i):
         elif 'root' in x:
             if cx.root.q not in x['root']:
                 continue
-        elif anchor not in x['within']:
+        elif 'within' in x and a.anchor not in x['within'] and not (x['within'] & set(h.frames(a.e, cx.root))):
+            continue      # (the reasons are about a dynamic extent: some active frame has the role)
+        if a.kind not in x['kinds'] and not any_kind:
+            miss = 'a %s access is not covered by the exemption "%s"' % (a.kind, x['why'])
             continue
-        if kind not in x['kinds']:
-            miss = 'a %s access is not covered by the exemption "%s"' % (kind, x['why'])
-            continue
-        if x.get('unless_after') and cx.may_follow(x['unless_after'][0], x['unless_after'][1], b, i):
+        if x.get('unless_after') and cx.may_follow(x['unless_after'][0], x['unless_after'][1], b, i,
+                                                   reset=x['unless_after'][2] if len(x['unless_after']) > 2 else None):
             miss = 'the access may follow the point "%s": exemption "%s" does not apply' % (x['unless_after'][0], x['why'])
             continue
+        if x.get('fresh'):
+            bn = _base_var(a.x, x['fresh'], cx.al)
+            st_ = cx.fresh(bn, b, i) if bn else frozenset([0])
+            if st_ != frozenset([1]):
+                miss = ('after the thread that receives the record was created' if 2 in st_ else
+                        'not on a record allocated in this context (the running thread or another one can see it)')
+                continue
         if x.get('after_release'):
-            lk = x['after_release']
-            if not cx.must_follow('release of ' + lk, lambda e, lk=lk, cx=cx: ('unlock', lk) in cx.eff(e), b, i):
+            lk = M.lock_of(a.key)
+            if lk is None or not cx.must_follow('release of ' + lk, lambda e, al, lk=lk, cx=cx: ('unlock', lk) in cx.eff(e), b, i):
                 miss = 'not every path to the access released %s before: exemption "%s" does not apply' % (lk, x['why'])
                 continue
         return x, None
     return None, miss
 
 
+# --------------------------------------------------------------------------
+# rules
+# --------------------------------------------------------------------------
+
+def run(ctx):
+    ctx.rule('R-C14a', 'lockset must-hold: every access to a shared location (listed fields of the public records, the lock-protected '
+                       'fields of the pool records, the lock-protected file-scope locations) is made with the lock that protects it '
+                       '(the one held where it is modified) in the must-held lockset, in every calling context from every entry point '
+                       '(public API, handlers, thread bodies, constructors); exemptions name a role, an access kind, a path condition '
+                       'and one reason', floor=65)
+    ctx.rule('R-C14a.tbl', 'every field of the cross-thread record types is classified from its accesses (the lock / own '
+                           'synchronisation / immutable after publication / lock-protected / thread-confined); a field that fits no '
+                           'class is a report', floor=20)
+    ctx.rule('R-C14b', 'foreign-state confinement: through an event\'s owner pointer a poster touches only the owner\'s list lock, '
+                       'the pending list (locked) and the read-only kick descriptors', floor=3)
+    ctx.rule('R-C14c', 'file-scope locations written outside lock regions are one-way flags: every store writes a constant and the '
+                       'value transitions that the guards allow form no cycle (method-table pointers: first selection or '
+                       'fallback by the running method); or configuration set by a pure setter call, or data of the set-up phase '
+                       'before the first iv_init; everything else is a report', floor=12)
+    ctx.rule('R-C14d', 'signal context: everything the process signal handler can reach is async-signal-safe (no mutex, no allocation); '
+                       'it is installed with all signals blocked', floor=5)
+    ctx.rule('R-C14e', 'lock order: the held->acquired graph over all entry points is acyclic; no user callback under a lock '
+                       'except the tabled thread_stop hook', floor=3)
+    ctx.section(lockset_rule)
+    ctx.section(confinement)
+    ctx.section(one_way)
+    ctx.section(signal_context)
+    ctx.section(active_fd)
+
+
+def _confined_roots(prog, M):
+    """entry points that run in the thread a thread record belongs to: the thread bodies and the handlers installed
+    into members of the record, provided every registration of such a member is made from one of them"""
+    conf = {f.q for f in h.thread_bodies(prog)}
+    members = {}
+    for f, e in h.event_pool(prog):
+        if e['ev'] == 'store' and 'rhs' in e:
+            st = list(lvalue_steps(e['lhs']))
+            if len(st) >= 2 and st[0][1] == 'handler' and st[1][0] == M.T:
+                t = h.func_node(prog, f, e['rhs'])
+                if t is not None:
+                    conf.add(t.q)
+                    members[st[1]] = True
+    ok = True
+    for cx in M.cxs:
+        for e in cx.g.events():
+            if e['ev'] in ('call', 'enter') and e.get('callee') and e['callee'].endswith('_register') and e.get('args'):
+                t = h.pointee(e['args'][0], cx.al)
+                y = strip(t) if t is not None else None
+                if isinstance(y, dict) and y.get('k') == 'member' and (y.get('record'), y['field']) in members and cx.root.q not in conf:
+                    ok = False
+    return conf if ok else set()
+
+
+def _leaves(prog, f, depth=0):
+    """leaf field paths of a field: the fields of an anonymous struct member are listed one by one"""
+    r = prog.records.get(f.get('record') or '') if str(f.get('record') or '').startswith('<anon') and not f.get('ptr') else None
+    if not r or 'fields' not in r or depth > 3:
+        return [f['name']]
+    return ['%s.%s' % (f['name'], x) for g in r['fields'] for x in _leaves(prog, g, depth + 1)]
+
+
 def lockset_rule(ctx):
     prog = ctx.prog
-    cxs = contexts(prog)
-    exs = exemptions(prog)
-    results = {}   # (anchor frame, key) -> list of (ok, event, root, exemption, miss)
-    order_edges = {}
-    user_under_lock = []
-    writers = {}   # key -> set of anchor frames that write it (for owner-only exemptions)
-    for cx in cxs:
-        r = cx.root
-        for b, i, e, H in cx.points():
-            for (op, lid) in cx.eff(e):
-                if op == 'lock' and lid != SIGBLOCK:
-                    for hl in H:
-                        if hl != SIGBLOCK and hl != lid:
-                            order_edges.setdefault((hl, lid), (e, r))
-            if e['ev'] == 'call' and 'fnexpr' in e:
-                ck = callback_kind(e)
-                if ck and ck[0] in ('callback', 'hook', 'param') and (H - {SIGBLOCK}):
-                    user_under_lock.append((e, r, H - {SIGBLOCK}, ck, cx.child(b, i)))
-            keys = shared_accesses(e)
-            if not keys:
+    M = model(prog)
+    exs = exemptions(prog, M)
+    P, T = M.P, M.T
+    # ---- which locations are lock-protected -------------------------------------------------------------
+    protected = {}     # key -> lock
+    classes = {}       # pool record field key -> (ok, text)
+    conf = None
+    deferred = list(M.errors)      # vanished anchors break their own obligations only; reported at the end
+    pool_recs = [rec for rec in (P, T) if rec is not None and 'fields' in (prog.records.get(rec) or {})]
+    for rec in pool_recs:
+        r = prog.records.get(rec)
+        for f in r['fields']:
+            key = (rec, f['name'])
+            accs = [a for a in M.by_key.get(key, ()) if not a.initial]
+            if key in M.lock_objects or (key in M.lock_holders and not M.by_key.get(key)):
+                classes[key] = (True, 'the lock itself')
                 continue
-            anchor = h.anchor_frame(prog, e, r)
-            kind = access_kind(e)
-            for key in keys:
-                ok = SHARED[key] in H
-                ex, miss = (None, None) if ok else find_exemption(exs, cx, anchor, key, kind, b, i)
-                results.setdefault((anchor, key), []).append((ok, e, r, ex, miss))
-                if kind != 'read':
-                    writers.setdefault(key, {})[anchor] = e
+            if f.get('record') == 'iv_event' and not f.get('ptr'):
+                classes[key] = (True, 'iv_event: own synchronisation')
+                continue
+            writes = [a for a in accs if a.kind != 'read']
+            late = [a for a in writes if find_exemption(exs, M, a, any_kind=True, only_prepub=True)[0] is None]
+            if not writes:
+                classes[key] = (False, 'UNCLASSIFIED field of a cross-thread record: it is never written')
+                continue
+            if not late:
+                classes[key] = (True, 'immutable after publication: %d store sites, all before the record is published'
+                                % len({a.loc for a in writes}))
+                continue
+            if rec == T and f.get('record') not in ('iv_list_head', 'iv_avl_node', 'iv_avl_tree'):
+                # (a link into a shared container is modified by whoever touches its neighbours: never confined)
+                if conf is None:
+                    conf = _confined_roots(prog, M)
+                if conf and all(a.cx.root.q in conf for a in accs):
+                    classes[key] = (True, 'touched only by the worker thread itself (thread body and handlers of the record\'s own members)')
+                    continue
+            L = M.lock_of(key)
+            if L is None:
+                a0 = late[0]
+                classes[key] = (False, 'written after publication without a lock: %s (entry %s)' % (describe(a0.e), a0.cx.root.name), a0)
+                continue
+            protected[key] = L
+            classes[key] = None       # decided below: protected iff every access holds L or is exempt
+    for key in M.fields:
+        if key[0] not in prog.records or not M.by_key.get(key):
+            deferred.append('no access to %s.%s found' % key)
+            continue
+        protected[key] = M.lock_of(key)
+    nglob = 0
+    for key in sorted(M.by_key):
+        if key[0] == 'global' and M.lock_of(key) is not None:
+            protected[key] = M.lock_of(key)
+            nglob += 1
+    if nglob < 4:
+        deferred.append('only %d lock-protected file-scope locations found' % nglob)
+    # ---- every access holds the lock -------------------------------------------------------------------
+    results = {}   # (anchor frame, key) -> list of (ok, access, exemption, miss)
+    writers = {}   # key -> {anchor frame: event} (for owner-only exemptions)
+    for key, L in protected.items():
+        for a in M.by_key[key]:
+            ok = L is not None and L in a.H
+            ex, miss = (None, None) if ok else find_exemption(exs, M, a)
+            results.setdefault((a.anchor, key), []).append((ok, a, ex, miss))
+            if a.kind != 'read':
+                writers.setdefault(key, {})[a.anchor] = a.e
+    owner_keys = {}
+    clean = {}
     for (anchor, key), lst in sorted(results.items(), key=lambda kv: (kv[0][0], str(kv[0][1]))):
-        bad = [(e, r, miss) for (ok, e, r, ex, miss) in lst if not ok and ex is None]
-        used = [ex for (ok, e, r, ex, miss) in lst if not ok and ex is not None]
-        e0, r0, miss0 = bad[0] if bad else (lst[0][1], lst[0][2], None)
+        L = protected[key]
+        bad = [(a, miss) for (ok, a, ex, miss) in lst if not ok and ex is None]
+        used = [ex for (ok, a, ex, miss) in lst if not ok and ex is not None]
+        a0, miss0 = bad[0] if bad else (lst[0][1], None)
         inst = '%s:%s.%s' % (h.short(anchor), key[0], key[1])
         for ex in used[:1]:
             ctx.exempt('R-C14a', inst, ex['why'])
-        nsites = len({e.get('loc') for (_, e, _, _, _) in lst})
-        ctx.ob('R-C14a', inst, not bad, loc=e0['loc'],
-               detail=('%s accessed without %s when entered from %s: %s%s' % ('%s.%s' % key, SHARED[key], r0.name, describe(e0),
+        for ex in used:
+            if ex.get('owner_only'):
+                owner_keys[key] = ex
+        if bad:
+            clean[key] = False
+        else:
+            clean.setdefault(key, True)
+        nsites = len({a.loc for (_, a, _, _) in lst})
+        ctx.ob('R-C14a', inst, not bad, loc=a0.loc,
+               detail=('%s accessed without %s when entered from %s: %s%s' % ('%s.%s' % key, L or 'any lock (no modification is made under a lock)',
+                                                                            a0.cx.root.name, describe(a0.e),
                                                                             ('; ' + miss0) if miss0 else '')) if bad else
-                      ('%d access sites in %d contexts, %s held%s' % (nsites, len({r.q for _, _, r, _, _ in lst}), SHARED[key],
+                      ('%d access sites in %d contexts, %s held%s' % (nsites, len({a.cx.root.q for _, a, _, _ in lst}), L,
                                                                      (' (exempt: %s)' % used[0]['why']) if used else '')),
                fn=anchor)
     # an exemption that rests on "only the owner thread writes this" obliges the writers
-    for x in exs:
-        if x.get('owner_only'):
-            key = x['loc']
-            ws = writers.get(key, {})
-            bad = sorted(a for a in ws if a not in x['owner_only'])
-            e0 = ws[bad[0]] if bad else (sorted(ws.items())[0][1] if ws else None)
-            ctx.ob('R-C14a', 'owner-thread-writes:%s.%s' % key, bool(ws) and not bad, loc=e0['loc'] if e0 else None,
-                   detail='%s.%s is read without the lock by its owner thread, so only the owner-thread API may write it; written within: %s'
-                          % (key[0], key[1], sorted(h.short(a) for a in ws)))
+    for key, x in sorted(owner_keys.items()):
+        ws = writers.get(key, {})
+        bad = sorted(a for a in ws if a not in x['owner_only'])
+        e0 = ws[bad[0]] if bad else (sorted(ws.items())[0][1] if ws else None)
+        ctx.ob('R-C14a', 'owner-thread-writes:%s.%s' % key, bool(ws) and not bad, loc=e0['loc'] if e0 else None,
+               detail='%s.%s is read without the lock by its owner thread, so only the owner-thread API may write it; written within: %s'
+                      % (key[0], key[1], sorted(h.short(a) for a in ws)))
+    if not owner_keys and pool_recs:
+        deferred.append('no field of the pool record is read by the owner thread\'s event handler without the lock '
+                        '(shutting-down test expected)')
+    # ---- classification of the pool records' fields ------------------------------------------------------
+    for rec in pool_recs:
+        r = prog.records[rec]
+        for f in r['fields']:
+            key = (rec, f['name'])
+            c = classes.get(key)
+            loc = r['loc']
+            if c is None:
+                L = protected[key]
+                ok = clean.get(key, True)
+                det = ('protected by %s' % L) if ok else ('written after publication under %s but not every access holds it: neither '
+                                                         'lock-protected nor immutable after publication' % L)
+                if not ok:
+                    b0 = [a for (an, k), lst in results.items() if k == key for (ok_, a, ex, miss) in lst if not ok_ and ex is None]
+                    loc = b0[0].loc if b0 else loc
+            else:
+                ok, det = c[0], c[1]
+                if len(c) > 2:
+                    loc = c[2].loc
+            # one obligation per leaf field: grouping fields into an anonymous sub-struct does not change the count
+            for leaf in _leaves(prog, f):
+                ctx.ob('R-C14a.tbl', '%s.%s' % (rec, leaf), ok, loc=loc, detail=det)
     # ---- lock order -------------------------------------------------------------
+    order_edges = M.order_edges
     cyc = h.find_cycle(set(order_edges))
     for (a, b), (e, r) in sorted(order_edges.items()):
         ctx.ob('R-C14e', 'order:%s->%s' % (a, b), not (cyc and a in cyc and b in cyc), loc=e['loc'],
                detail='%s acquired while %s is held (entry %s)%s' % (b, a, r.name, ('; part of cycle ' + ' -> '.join(cyc)) if cyc and a in cyc and b in cyc else ''))
     if not order_edges:
-        raise AnalysisBroken('no nested lock acquisition found (wait lock -> event list mutex expected)')
+        deferred.append('no nested lock acquisition found (wait lock -> event list mutex expected)')
     groups = {}
-    for (e, r, H, ck, child) in user_under_lock:
+    for (e, r, H, ck, child) in M.user_under_lock:
         lm = last_member(e['fnexpr']) if 'fnexpr' in e else None
         inst = 'user-call-under-lock:%s' % ('%s.%s' % lm if lm else canon(e.get('fnexpr')))
         groups.setdefault(inst, []).append((e, r, H, lm, child))
@@ -467,7 +1008,7 @@ def lockset_rule(ctx):
                    'process); the parent never runs user code under the lock')
             ctx.exempt('R-C14e', inst, why)
             ctx.ob('R-C14e', inst, True, loc=e['loc'], detail='exempt: ' + why)
-        elif lm in (('work_pool_priv', 'thread_stop'),):
+        elif lm == ('iv_work_pool', 'thread_stop') or M.hook_src.get(lm) == ('iv_work_pool', 'thread_stop'):
             why = ('thread_stop hook runs with the pool lock held (man page: hooks are "not explicitly serialised"); '
                    'no listed property forbids it; recorded as exemption N2')
             ctx.exempt('R-C14e', inst, why)
@@ -475,79 +1016,13 @@ def lockset_rule(ctx):
         else:
             e, r, H = [(e, r, H) for (e, r, H, _, child) in lst if not child][0]
             ctx.ob('R-C14e', inst, False, loc=e['loc'], detail='user code entered with %s held (entry %s)' % (sorted(H), r.name))
-
-
-def classification(ctx):
-    prog = ctx.prog
-    for rec, cls in sorted(CLASSIFIED_UNSHARED.items()):
-        r = prog.records.get(rec)
-        if not r or 'fields' not in r:
-            raise AnalysisBroken('record %s not found' % rec)
-        for f in r['fields']:
-            ok = (rec, f['name']) in SHARED or f['name'] in cls
-            ctx.ob('R-C14a.tbl', '%s.%s' % (rec, f['name']), ok, loc=r['loc'],
-                   detail=('protected by %s' % SHARED[(rec, f['name'])]) if (rec, f['name']) in SHARED else cls.get(f['name'], 'UNCLASSIFIED field of a cross-thread record'))
-    # immutable-after-publication fields: every store, in every calling context, is made before the object can be
-    # seen by another thread -- the pool before iv_work_pool_create publishes it (this->priv), the thread record
-    # before the thread that receives it is created
-    create = {f.q for f in h.api(prog, 'iv_work_pool_create')}
-    once = {}
-    for rec, cls in CLASSIFIED_UNSHARED.items():
-        for fld, why in cls.items():
-            if 'written once' in why:
-                once[(rec, fld)] = []
-
-    def creates_thread(e):
-        return e['ev'] in ('call', 'enter') and e.get('callee') in h.THREAD_CREATE
-
-    def allocates(e):
-        if e['ev'] != 'store' or 'rhs' not in e:
-            return False
-        v = strip(e['rhs'])
-        return isinstance(v, dict) and v.get('k') == 'call' and v.get('callee') in ('malloc', 'calloc')
-    for cx in contexts(prog):
-        for b, i, e, H in cx.points():
-            if e['ev'] != 'store':
-                continue
-            for st in lvalue_steps(e['lhs']):
-                if st not in once:
-                    continue
-                if st[0] == 'work_pool_priv':
-                    inside = h.anchor_frame(prog, e, cx.root) in create
-                    late = cx.may_follow('pool published', _publishes_pool, b, i)
-                    once[st].append((inside and not late, e, cx.root,
-                                     'outside iv_work_pool_create' if not inside else 'after the pool was published' if late else ''))
-                else:
-                    obj = strip(e['lhs'])
-                    while isinstance(obj, dict) and obj.get('k') == 'member' and not obj['arrow']:
-                        obj = strip(obj['base'])
-                    base = strip(obj['base']) if isinstance(obj, dict) and obj.get('k') == 'member' else None
-                    bname = base['name'] if isinstance(base, dict) and base.get('k') == 'var' else None
-                    k = ('fresh', bname)
-                    if k not in cx._memo:
-                        # status of the record `bname` points to -- 0: not allocated on the path, 1: allocated here and not
-                        # yet handed to a new thread, 2: a thread was created since
-                        def tr(x, s_, bname=bname):
-                            if allocates(x) and strip(x['lhs']).get('k') == 'var' and strip(x['lhs'])['name'] == bname:
-                                return frozenset([1])
-                            if creates_thread(x):
-                                return frozenset(2 if v == 1 else v for v in s_)
-                            return s_
-                        _, cx._memo[k] = forward(cx.g, frozenset([0]), tr, lambda a, b2: a | b2)
-                    st_ = cx._memo[k].get((b, i)) or frozenset([0])
-                    why = '' if st_ == frozenset([1]) else ('after the thread that receives the record was created' if 2 in st_ else
-                                                            'not on a record allocated in this context (the running thread or another one can see it)')
-                    once[st].append((not why, e, cx.root, why))
-    for (rec, fld), lst in sorted(once.items()):
-        bad = [(e, r, why) for (ok, e, r, why) in lst if not ok]
-        ctx.ob('R-C14a.tbl', '%s.%s:written-once' % (rec, fld), bool(lst) and not bad,
-               loc=(bad[0][0]['loc'] if bad else lst[0][1]['loc'] if lst else prog.records[rec]['loc']),
-               detail=('store %s (entry %s): %s' % (describe(bad[0][0]), bad[0][1].name, bad[0][2])) if bad else
-                      ('%d store sites, all before publication' % len({e.get('loc') for (_, e, _, _) in lst})) if lst else 'never written')
+    if deferred:
+        raise AnalysisBroken('; '.join(deferred))
 
 
 def confinement(ctx):
     prog = ctx.prog
+    M = model(prog)
     f = h.api(prog, 'iv_event_post')[0]
     g = Inliner(prog, expand_methods=True).inline(f)
     # variables holding the owner pointer
@@ -570,28 +1045,64 @@ def confinement(ctx):
                     owners.add(strip(e['lhs'])['name'])
                     changed = True
     ls = h.locksets_in(g)
+    al = h.addr_aliases(g)
+    send_fns = {x.q for x in prog.slot_targets('event_send')}
+    # where `owner == iv_get_state()` holds the state is the poster's own, whichever pointer it is reached through
+    selfvars = set()
+    for e in g.events():
+        if e['ev'] == 'store' and e.get('op') == '=' and 'rhs' in e:
+            v, l = strip(e['rhs']), strip(e['lhs'])
+            if isinstance(v, dict) and v.get('k') == 'call' and v.get('callee') == 'iv_get_state' and l.get('k') == 'var':
+                selfvars.add(l['name'])
+
+    def is_self(x):
+        v = strip(x)
+        return isinstance(v, dict) and ((v.get('k') == 'call' and v.get('callee') == 'iv_get_state') or
+                                        (v.get('k') == 'var' and v['name'] in selfvars))
+
+    def is_owner(x):
+        v = strip(x)
+        return isinstance(v, dict) and ((v.get('k') == 'var' and v['name'] in owners) or last_member(v) == ('iv_event', 'owner'))
+
+    def own_tr(e, S):
+        if S and e['ev'] == 'store':
+            l = strip(e['lhs'])
+            if l.get('k') == 'var':
+                return S - {l['name']}
+            if last_member(e['lhs']) == ('iv_event', 'owner'):
+                return frozenset()
+        return S
+
+    def own_edge(blk, si, S):
+        t = blk.term
+        if not t or t.get('cond') is None or len(blk.succ) != 2 or t.get('cls') in ('SwitchStmt', 'MethodDispatch'):
+            return S
+        for (op, lc, rc, l, r) in h.norm_cond(t['cond'], si == 0):
+            if op == '==' and isinstance(l, dict) and isinstance(r, dict):
+                if is_owner(l) and is_self(r):
+                    S = S | {canon(strip(l))}
+                elif is_owner(r) and is_self(l):
+                    S = S | {canon(strip(r))}
+        return S
+    _, own_at = forward(g, frozenset(), own_tr, lambda a, b2: a & b2, edge=own_edge)
     fields = {}
     for b, blk in g.blocks.items():
         for i, e in enumerate(blk.events):
-            exprs = []
-            if e['ev'] == 'load':
-                exprs.append(('r', e['e']))
-            elif e['ev'] == 'store':
-                exprs.append(('w', e['lhs']))
-            elif e['ev'] == 'call':
-                for a in e.get('args', []):
-                    a2 = strip(a)
-                    if isinstance(a2, dict) and a2.get('k') == 'addr':
-                        exprs.append(('a', a2['e']))
-            for (kind, x) in exprs:
+            for (x, kind) in access_items(e, al):
                 y = x
                 chain = []
-                while isinstance(y, dict) and y.get('k') in ('member', 'index', 'cast', 'load'):
+                n = 0
+                while isinstance(y, dict) and y.get('k') in ('member', 'index', 'cast', 'load') and n < 64:
+                    n += 1
                     if y.get('k') == 'member':
                         chain.append(y)
                         if y['arrow']:
-                            break
-                        y = y['base']
+                            t = h._alias_target(y['base'], al)
+                            if t is None:
+                                break
+                            y = t
+                        else:
+                            y = y['base']
                     elif y.get('k') == 'index':
                         y = y['base']
                     else:
@@ -602,19 +1113,49 @@ def confinement(ctx):
                 b0 = strip(top['base'])
                 if top.get('record') == 'iv_state' and isinstance(b0, dict) and (
                         (b0.get('k') == 'var' and b0['name'] in owners) or last_member(b0) == ('iv_event', 'owner')):
-                    fields.setdefault(top['field'], []).append((kind, e, held(ls.get((b, i)))))
+                    if canon(b0) in (own_at.get((b, i)) or ()):
+                        continue       # owner == iv_get_state() holds here: the poster's own state
+                    steps = {(m.get('record'), m['field']) for m in chain}
+                    # the list lock and the pending list are obligations of their own, whatever sub-struct they live in
+                    name = top['field']
+                    if kind == 'lockop':
+                        name = chain[0]['field']
+                    elif steps & M.pending:
+                        name = sorted(steps & M.pending)[0][1]
+                    role = ('kick' if top.get('trecord') == 'iv_event_raw' and not top.get('tptr') else
+                            'method' if set(h.frames(e, f)) & send_fns else None)
+                    fields.setdefault(name, []).append((kind, e, held(ls.get((b, i))), steps, role))
     if not fields:
         raise AnalysisBroken('iv_event_post: no access through the owner pointer found')
+    seen_lock = seen_pending = False
     for fld, lst in sorted(fields.items()):
-        ok = fld in FOREIGN_ALLOWED
-        if ok and fld == 'events_pending':
-            ok = all(EVL in H for (_, _, H) in lst)
-        if ok and fld in ('events_kick', 'u'):
-            ok = all(k in ('r', 'a') and (k == 'r' or fld == 'events_kick') for (k, _, _) in lst)
         e0 = lst[0][1]
-        ctx.ob('R-C14b', 'iv_event_post:owner->%s' % fld, ok, loc=e0['loc'],
-               detail=FOREIGN_ALLOWED.get(fld, 'thread-confined field of another thread\'s loop state accessed by a poster: %s' % describe(e0)),
+        bad = []
+        what = set()
+        for (kind, e, H, steps, topf) in lst:
+            if kind == 'lockop':
+                what.add('the owner\'s list lock')      # taking/releasing a lock inside the owner's state
+                seen_lock = True
+            elif steps & M.pending:
+                what.add('the pending list, accessed under its lock')
+                seen_pending = True
+                L = M.lock_of(sorted(steps & M.pending)[0])
+                if L is None or L not in H:
+                    bad.append(e)
+            elif topf == 'kick' and kind in ('read', 'extern'):
+                what.add('read of the raw-event wake-up object (written only while the owner has no event registered)')
+            elif topf == 'method' and kind == 'read':
+                what.add('read of poll-method state by the event_send slot of the running method')
+            else:
+                bad.append(e)
+        ctx.ob('R-C14b', 'iv_event_post:owner->%s' % fld, not bad, loc=(bad[0] if bad else e0)['loc'],
+               detail=('; '.join(sorted(what)) if not bad else
+                       'thread-confined field of another thread\'s loop state accessed by a poster (allowed: the list lock, the pending list '
+                       'under it, reads of the raw-event wake-up object, reads made by the event_send slot): %s'
+                       % describe(bad[0])),
                fn=f.q)
+    if not (seen_lock and seen_pending):
+        raise AnalysisBroken('iv_event_post: the owner\'s list lock / pending list are not reached through the owner pointer')
     # who follows an event's owner pointer: only code that runs as part of iv_event_post (any thread) or
     # iv_event_unregister (owner thread only, documented), whatever helpers they are cut into
     allowed = {x.q for x in h.api(prog, 'iv_event_post', 'iv_event_unregister')}
@@ -642,8 +1183,129 @@ def _table_value(v):
         ('iv_fd_poll_method' in (v.get('type') or '') and '*' in (v.get('type') or ''))
 
 
+def _loc_type(a):
+    """('table' | 'int' | 'other') kind of value the stored-to location holds, from the type of the lvalue"""
+    l = strip(a.e['lhs']) if a.e['ev'] == 'store' else None
+    if not isinstance(l, dict):
+        return 'other'
+    while l.get('k') == 'index':
+        l = strip_load(l['base'])
+        l = strip(l)
+    rec = l.get('record') if l.get('k') == 'var' else l.get('trecord')
+    ptr = l.get('ptr') if l.get('k') == 'var' else l.get('tptr')
+    ty = l.get('type') or ''
+    if rec == 'iv_fd_poll_method' and ptr:
+        return 'table'
+    if rec or '*' in ty or '(' in ty or 'struct ' in ty or 'union ' in ty:
+        return 'other'
+    return 'int'
+
+
+def _global_init(prog, path):
+    """integer initial value of a file-scope location (0 when it has no initialiser)"""
+    parts = path.split('.')
+    inits = [g.get('init') for k, g in prog.globals.items() if g.get('name') == parts[0] and not g.get('extern_decl')]
+    vals = set()
+    for iv in inits or [None]:
+        for p in parts[1:]:
+            iv = iv.get('fields', {}).get(p) if isinstance(iv, dict) and iv.get('k') == 'init' else None
+        v = h._intval(iv) if iv is not None else 0
+        vals.add(0 if v is None else v)
+    return vals
+
+
+def _store_value(e):
+    """integer a store writes (NULL = 0; the address of a method table = 1), or None"""
+    if e.get('op') != '=' or 'rhs' not in e:
+        return None
+    v = h._intval(e['rhs'])
+    if v is not None:
+        return v
+    return 1 if _table_value(e['rhs']) else None
+
+
+def _relative_step(a, name):
+    """+1 / -1 / 0 when the store `a` to the integer flag `name` writes a value that lies at or beyond the value the
+    flag was last observed to have, in a known direction: `F++`, `F += k`, `F = X + k`, `F = X - k`, `F = X` (k a
+    positive constant) where X is a read of the flag or a local that *tracks* it: every assignment to the local in
+    this context is a copy of the flag or a step by a positive constant in the same direction (`for (i = F; ...; i++)`).
+    None when nothing of the kind can be said."""
+    e = a.e
+    al = a.cx.al
+
+    def is_flag(x):
+        gp = h.gpath(x, al, cached_ok=True)
+        return gp is not None and '.'.join(gp) == name
+
+    def posconst(x):
+        v = h._intval(x)
+        return v if v is not None and v > 0 else None
+
+    def tracked(x, sign):
+        """x reads the flag, or a local tracking it in direction sign (+1 / -1; 0: either, returns the direction found)"""
+        if is_flag(x):
+            return sign or 0
+        v = strip(x)
+        if not (isinstance(v, dict) and v.get('k') == 'var' and v.get('vk') not in ('global', 'staticlocal', 'func')):
+            return None
+        dirs = set()
+        ndefs = 0
+        for d in a.cx.g.events():
+            if d['ev'] != 'store':
+                continue
+            l = strip(d['lhs'])
+            if not (isinstance(l, dict) and l.get('k') == 'var' and l['name'] == v['name']):
+                continue
+            ndefs += 1
+            op = d.get('op')
+            if op == '=' and 'rhs' in d:
+                r = strip(d['rhs'])
+                if is_flag(d['rhs']):
+                    continue
+                if isinstance(r, dict) and r.get('k') == 'bin' and r.get('op') in ('+', '-'):
+                    lv, rv = strip(r['l']), strip(r['r'])
+                    if isinstance(lv, dict) and lv.get('k') == 'var' and lv['name'] == v['name'] and posconst(r['r']):
+                        dirs.add(1 if r['op'] == '+' else -1)
+                        continue
+                return None
+            if op in ('++', '--'):
+                dirs.add(1 if op == '++' else -1)
+            elif op in ('+=', '-=') and 'rhs' in d and posconst(d['rhs']):
+                dirs.add(1 if op == '+=' else -1)
+            else:
+                return None
+        if not ndefs or len(dirs) > 1:
+            return None
+        d0 = dirs.pop() if dirs else 0
+        if sign and d0 and d0 != sign:
+            return None
+        return d0 or sign or 0
+    if e['ev'] != 'store':
+        return None
+    gp = h.gpath(e['lhs'], al)
+    if gp is None or '.'.join(gp) != name:
+        return None
+    op = e.get('op')
+    if op in ('++', '--'):
+        return 1 if op == '++' else -1
+    if op in ('+=', '-=') and 'rhs' in e and posconst(e['rhs']):
+        return 1 if op == '+=' else -1
+    if op != '=' or 'rhs' not in e:
+        return None
+    r = strip(e['rhs'])
+    if isinstance(r, dict) and r.get('k') == 'bin' and r.get('op') in ('+', '-'):
+        sign = 1 if r['op'] == '+' else -1
+        if posconst(r['r']) and tracked(r['l'], sign) is not None:
+            return sign
+        if r['op'] == '+' and posconst(r['l']) and tracked(r['r'], 1) is not None:
+            return 1
+        return None
+    return tracked(e['rhs'], 0)
+
+
 def one_way(ctx):
     prog = ctx.prog
+    M = model(prog)
     slot_fns = set()
     for t, slots in prog.method_tables().items():
         for s_, v in slots.items():
@@ -651,88 +1313,154 @@ def one_way(ctx):
                 fn = prog.resolve(v[0], v[1])
                 if fn is not None:
                     slot_fns.add(fn.q)
-    # lock context and guards of every global store, over all entry points
-    ctxs = {}
-    for cx in contexts(prog):
-        r = cx.root
-        if r.constructor:
-            continue      # runs before main(), single-threaded
-        guards = None
-        for b, i, e, H in cx.points():
-            if e['ev'] != 'store':
-                continue
-            rt = lvalue_root(e['lhs'])
-            if rt is None or rt.get('vk') not in ('global', 'staticlocal'):
-                continue
-            G = frozenset()
-            if rt['name'] in ONE_WAY:
-                if guards is None:
-                    guards = h.flag_guards(cx.g, set(ONE_WAY))
-                G = frozenset(a for a in (guards.get((b, i)) or ()) if a[1] == rt['name'])
-            ctxs.setdefault(rt['name'], []).append((e, H - {SIGBLOCK}, r, G, h.frames(e, r), h.anchor_frame(prog, e, r)))
-    seen = set()
-    for name, lst in sorted(ctxs.items()):
-        if ('global', name) in SHARED:
-            continue    # R-C14a
-        if name in ONE_WAY:
-            kind, why = ONE_WAY[name]
-            by_site = {}
-            for t in lst:
-                by_site.setdefault((t[5], t[0].get('loc')), []).append(t)
-            edges = {}
-            domain = set()
-            inits = [g.get('init') for k, g in prog.globals.items() if g.get('name') == name and not g.get('extern_decl')]
-            for iv in inits or [None]:
-                v = h._intval(iv) if iv is not None else 0
-                domain.add(0 if v is None else v)
-            for (anchor, loc), group in sorted(by_site.items(), key=str):
-                e = group[0][0]
-                inst = '%s:%s' % (name, h.short(anchor))
-                if kind == 'int':
-                    vals = [h._intval(t[0].get('rhs')) if t[0].get('op') == '=' and 'rhs' in t[0] and h._gvar(t[0]['lhs']) else None for t in group]
-                    vok = all(v is not None for v in vals)
-                    det = 'stores the constant %s' % vals[0] if vok else 'stored value is not a compile-time constant: %s' % describe(e)
-                    for t, v in zip(group, vals):
-                        if v is not None:
-                            domain.add(v)
-                            edges.setdefault(v, []).append(t[3])
-                else:
-                    first = all(('==', name, 0) in t[3] for t in group)
-                    fallback = all(any(q in slot_fns for q in t[4]) for t in group)
-                    vok = all(t[0].get('op') == '=' and 'rhs' in t[0] and _table_value(t[0]['rhs']) for t in group) and (first or fallback)
-                    det = ('first selection (method == NULL holds)' if first else 'fallback made by the running poll method itself' if fallback
-                           else 'neither guarded by method == NULL nor made by a poll-method slot function') + '; stored value %s' % (
-                               canon(e.get('rhs')) if 'rhs' in e else e['op'])
-                ctx.ob('R-C14c', inst, vok, loc=e['loc'], detail='%s; %s' % (why, det), fn=anchor)
+    # file-scope locations that are modified somewhere but by no site under a lock (R-C14a covers the others)
+    cand = {}
+    for key, lst in M.by_key.items():
+        if key[0] != 'global' or M.lock_of(key) is not None:
+            continue
+        ws = [a for a in lst if a.kind != 'read' and not a.initial]
+        if ws:
+            cand[key[1]] = ws
+    kinds = {}
+    for name, ws in cand.items():
+        ks = {_loc_type(a) for a in ws if a.e['ev'] == 'store'}
+        kinds[name] = ks.pop() if len(ks) == 1 else 'other'
+    domains = {}
+    for name, ws in cand.items():
+        if kinds[name] in ('int', 'table'):
+            d = set(_global_init(prog, name))
+            for a in ws:
+                v = _store_value(a.e) if a.e['ev'] == 'store' and h.gpath(a.e['lhs'], a.cx.al) is not None \
+                    and '.'.join(h.gpath(a.e['lhs'], a.cx.al)) == name else None
+                if v is not None:
+                    d.add(v)
+            domains[name] = frozenset(d)
+    # possible values of the flags at every write, per context
+    vals = {}
+
+    def values_at(a):
+        cx = a.cx
+        if cx not in vals:
+            vals[cx] = h.flag_values(cx.g, domains, _store_value)
+        ev_in, getv = vals[cx]
+        S = ev_in.get((a.b, a.i))
+        return (lambda f: getv(S, f)) if S is not None else (lambda f: domains[f])
+    # flags of the set-up phase: integer flags that only iv_init (first initialisation of the library) moves
+    init_api = {f.q for f in h.api(prog, 'iv_init')}
+    init_flags = set()
+    for name, ws in cand.items():
+        if kinds[name] == 'int' and all(a.e['ev'] == 'store' and _store_value(a.e) is not None and
+                                        h.only_via(prog, prog.funcs.get(a.e.get('fn')) or a.cx.root, init_api) for a in ws):
+            init_flags.add(name)
+
+    def in_setup(a):
+        v = values_at(a)
+        return any(v(f) and v(f) <= frozenset(_global_init(prog, f)) for f in init_flags)
+
+    by_root = {cx.root.q: cx for cx in M.cxs}
+    pure = {}
+
+    def pure_setter(a):
+        """the access is the whole effect of a public set-up call: that API function (everything inlined) calls
+        nothing and stores to no other memory"""
+        k = (a.anchor, a.key)
+        if k not in pure:
+            cx = by_root.get(a.anchor)
+            ok = cx is not None and a.anchor in h.public_api(prog)
+            for e in (cx.g.events() if ok else ()):
+                if e['ev'] == 'call':
+                    ok = False
+                elif e['ev'] == 'store':
+                    rt = lvalue_root(e['lhs'])
+                    if rt is None:
+                        ok = False
+                    elif rt.get('vk') in ('global', 'staticlocal'):
+                        gp = h.gpath(e['lhs'], cx.al)
+                        if gp is None or '.'.join(gp) != a.key[1]:
+                            ok = False
+            pure[k] = ok
+        return pure[k]
+    nflags = 0
+    ntables = 0
+    for name, ws in sorted(cand.items()):
+        kind = kinds[name]
+        first = ws[0]
+        if all(pure_setter(a) for a in ws):
+            why = 'configuration: only written by a set-up call that does nothing else (%s); documented as not thread-safe configuration' % \
+                  ', '.join(sorted({h.short(a.anchor) for a in ws}))
+            inst = '%s:configuration' % name
+            ctx.exempt('R-C14c', inst, why)
+            ctx.ob('R-C14c', inst, True, loc=first.loc, detail=why)
+            continue
+        if name not in init_flags and init_flags and all(in_setup(a) for a in ws):
+            why = ('set-up phase: only written while a flag that the first iv_init moves still has its initial value (%s); '
+                   'the first iv_init is documented to complete before other threads use the library' % ', '.join(sorted(init_flags)))
+            inst = '%s:set-up-phase' % name
+            ctx.exempt('R-C14c', inst, why)
+            ctx.ob('R-C14c', inst, True, loc=first.loc, detail=why)
+            continue
+        if kind == 'other':
+            bad = [a for a in ws if not a.H - {SIGBLOCK}] or ws
+            ctx.ob('R-C14c', '%s:unclassified' % name, False, loc=bad[0].loc,
+                   detail='file-scope location modified without a lock (%s, entry %s); neither a one-way flag nor configuration nor set-up data'
+                          % (describe(bad[0].e), bad[0].cx.root.name))
+            continue
+        by_site = {}
+        for a in ws:
+            by_site.setdefault((a.anchor, a.loc), []).append(a)
+        trans = set()
+        rel = set()        # directions of the stores that step from the observed value
+        for (anchor, loc), group in sorted(by_site.items(), key=str):
+            a0 = group[0]
+            inst = '%s:%s' % (name, h.short(anchor))
+            svals = [(_store_value(a.e) if a.e['ev'] == 'store' and '.'.join(h.gpath(a.e['lhs'], a.cx.al) or ()) == name else None)
+                     for a in group]
+            vok = all(v is not None for v in svals)
             if kind == 'int':
-                # value transitions: a store of c guarded by atoms G moves every value of the domain that satisfies G to c
-                trans = set()
-                for c, glist in edges.items():
-                    for G in glist:
-                        for d in domain:
-                            if d != c and h.satisfies(d, G):
-                                trans.add((d, c))
-                cyc = h.find_cycle(trans)
-                ctx.ob('R-C14c', '%s:one-way' % name, not cyc, loc=lst[0][0]['loc'],
+                steps = [None if v is not None else _relative_step(a, name) for a, v in zip(group, svals)]
+                if not vok and all(v is not None or st is not None for v, st in zip(svals, steps)):
+                    vok = True
+                    rel |= {st for st in steps if st is not None}
+                    det = 'stores a value at or %s the one the flag was observed to have: %s' % (
+                        'beyond' if any(steps) else 'equal to', describe(a0.e))
+                else:
+                    det = 'stores the constant %s' % svals[0] if vok else \
+                        'stored value is neither a compile-time constant nor a step from the observed value in a known direction: %s' % describe(a0.e)
+                why = 'one-way flag'
+            else:
+                firsts = all(values_at(a)(name) <= frozenset([0]) for a in group)
+                fallback = all(any(q in slot_fns for q in h.frames(a.e, a.cx.root)) for a in group)
+                vok = vok and all(v == 1 for v in svals) and (firsts or fallback)
+                det = ('first selection (the pointer is still NULL)' if firsts else 'fallback made by the running poll method itself' if fallback
+                       else 'neither guarded by a NULL test of the pointer nor made by a poll-method slot function') + '; stored value %s' % (
+                           canon(a0.e.get('rhs')) if 'rhs' in a0.e else a0.e.get('op'))
+                why = 'selected during the first iv_init; later only compatible fallbacks (C15)'
+            ctx.ob('R-C14c', inst, vok, loc=a0.loc, detail='%s; %s' % (why, det), fn=anchor)
+            for a, c in zip(group, svals):
+                if c is not None:
+                    for d in values_at(a)(name):
+                        if d != c:
+                            trans.add((d, c))
+        if kind == 'int':
+            nflags += 1
+            # value transitions: a store of c moves every value the flag can have there (as last observed) to c
+            cyc = h.find_cycle(trans)
+            dirs = rel - {0}
+            if rel:
+                # stores relative to the observed value: all of them, and every constant store, must move the same way
+                against = sorted((d, c) for (d, c) in trans if dirs and ((c < d) if 1 in dirs else (c > d)))
+                ok = len(dirs) <= 1 and not against and not cyc
+                det = 'stepping stores move %s; constant transitions %s%s' % (
+                    {1: 'up', -1: 'down'}.get(next(iter(dirs)), '?') if len(dirs) == 1 else ('nowhere' if not dirs else 'both ways'),
+                    sorted(trans), (': against that direction: %s' % against) if against else '')
+                ctx.ob('R-C14c', '%s:one-way' % name, ok, loc=first.loc, detail=det)
+            else:
+                ctx.ob('R-C14c', '%s:one-way' % name, not cyc, loc=first.loc,
                        detail=('transitions %s' % sorted(trans)) + ((': value can come back: ' + ' -> '.join(str(x) for x in cyc)) if cyc else ': no value is ever restored'))
-        elif name in GLOBAL_OTHER:
-            inst = '%s:classified' % name
-            if inst not in seen:
-                seen.add(inst)
-                ctx.exempt('R-C14c', inst, GLOBAL_OTHER[name])
-                ctx.ob('R-C14c', inst, True, loc=lst[0][0]['loc'], detail=GLOBAL_OTHER[name])
         else:
-            unlocked = [(t[0], t[2]) for t in lst if not t[1]]
-            inst = '%s:unclassified' % name
-            if inst not in seen:
-                seen.add(inst)
-                e0 = (unlocked or [(lst[0][0], lst[0][2])])[0][0]
-                ctx.ob('R-C14c', inst, not unlocked, loc=e0['loc'],
-                       detail='file-scope variable written %s; not in the one-way flag table nor classified'
-                              % ('without any lock held' if unlocked else 'only under locks'))
-    for name in ONE_WAY:
-        if name not in ctxs:
-            raise AnalysisBroken('one-way flag %s is never stored' % name)
+            ntables += 1
+    if nflags < 5 or ntables < 1:
+        raise AnalysisBroken('one-way flags: only %d integer flags and %d method-table pointers found' % (nflags, ntables))
 
 
 def signal_context(ctx):
@@ -774,7 +1502,12 @@ def signal_context(ctx):
                             continue
                         ext.setdefault(e['callee'], (e, path))
                 else:
-                    ext.setdefault('<indirect %s>' % canon(e['fnexpr']), (e, path))
+                    ts = h.table_call_targets(prog, e)
+                    if ts:
+                        for g in ts:
+                            work.append((g, path + [g.name]))
+                    else:
+                        ext.setdefault('<indirect %s>' % canon(e['fnexpr']), (e, path))
     for name, (e, path) in sorted(ext.items()):
         ok = name in SIGNAL_SAFE_EXTERNAL
         ctx.ob('R-C14d', 'signal-handler-reaches:%s' % name, ok, loc=e['loc'],
@@ -785,67 +1518,28 @@ def signal_context(ctx):
            detail='repo functions reachable: %d; mutex/allocating ones: %s' % (len(seen), bad or 'none'))
 
 
-def _is_active_fd(v):
-    return isinstance(v, dict) and v.get('k') == 'var' and v.get('name') == 'iv_active_fd' and v.get('vk') in ('global', 'staticlocal')
-
-
 def active_fd(ctx):
-    """iv_active_fd is written under the mutex and may be read without it only
-    while the reader holds a reference: never after its own reference was dropped.
-    Evaluated per entry point that touches the descriptor (the event_rx_on/off/send slot functions), helpers inlined."""
+    """The shared wake-up descriptor (what the event_rx_on slot creates) and its reference count (what event_rx_on
+    steps up and event_rx_off steps down) are protected by one lock; the accesses themselves are R-C14a obligations
+    of lockset_rule (the descriptor may be read without the lock only while the reader holds a reference: never
+    after its own reference was dropped)."""
     prog = ctx.prog
-
-    def touches(e):
-        if e['ev'] == 'load':
-            x = strip(e['e'])
-            return _is_active_fd(x) and not e['e'].get('_was') and not x.get('_was')
-        if e['ev'] == 'store':
-            rt = lvalue_root(e['lhs'])
-            return rt is not None and _is_active_fd(rt)
-        return False
-
-    def drops(e):
-        if e['ev'] != 'store':
-            return False
-        rt = lvalue_root(e['lhs'])
-        return rt is not None and rt.get('name') == 'iv_active_fd_refcount' and rt.get('vk') in ('global', 'staticlocal') \
-            and e['op'] not in ('++', '+=')
-    # candidate functions: reach an access through direct calls
-    direct = {f.q for f in prog.all_funcs() if any(touches(e) for e in f.events())}
-    if not direct:
-        raise AnalysisBroken('accesses to iv_active_fd: none found')
-    reach = {}
-    for q in direct:
-        for c in _callers_closure(prog, prog.funcs[q]):
-            reach[c.q] = c
-    eps = [r for r in h.entry_points(prog, roots_of(prog)) if r.q in reach]
-    sites = {}
-    for r in eps:
-        g = Inliner(prog).inline(r)
-        acc = [e for e in g.events() if touches(e)]
-        if not acc:
-            continue
-        ls = h.locksets_in(g)
-        after = h.may_follow(g, drops)
-        for e in acc:
-            H = held(ls.get((e['_b'], e['_i'])))
-            if e['ev'] == 'store':
-                ok = AFD in H
-                det = 'written with the active-fd mutex held' if ok else 'written without the active-fd mutex'
-            else:
-                dropped = bool(after.get((e['_b'], e['_i'])))
-                ok = (AFD in H) or not dropped
-                det = ('read under the mutex' if AFD in H else 'read while this thread still holds its reference') if ok else \
-                    'read without the mutex after this thread dropped its reference: another thread may be re-creating the descriptor'
-            sites.setdefault((r.q, 'write' if e['ev'] == 'store' else 'read', e.get('loc')), []).append((ok, det, e))
-    for (rq, kind, loc), lst in sorted(sites.items(), key=str):
-        bad = [x for x in lst if not x[0]]
-        ok, det, e = bad[0] if bad else lst[0]
-        ctx.ob('R-C14a', '%s:iv_active_fd:%s' % (h.short(rq), kind), ok, loc=e['loc'], detail=det, fn=rq)
-    if len({k[2] for k in sites}) < 4:
-        raise AnalysisBroken('accesses to iv_active_fd: %d found' % len({k[2] for k in sites}))
-
-
-def _callers_closure(prog, f):
-    from ..roles import callers_closure
-    return callers_closure(prog, f)
+    M = model(prog)
+    if not M.refcounts or not M.descriptors:
+        raise AnalysisBroken('event_rx_on/event_rx_off slots: no reference-counted shared descriptor found (counts %s, descriptors %s)'
+                             % (sorted(k[1] for k in M.refcounts), sorted(k[1] for k in M.descriptors)))
+    locks = {M.lock_of(k) for k in M.refcounts}
+    for key in sorted(M.refcounts | M.descriptors):
+        L = M.lock_of(key)
+        ws = [a for a in M.by_key[key] if a.kind != 'read' and not a.initial]
+        bad = [a for a in ws if L is None or L not in a.H]
+        ok = L is not None and locks == {L} and not bad
+        a0 = (bad or ws or M.by_key[key])[0]
+        ctx.ob('R-C14a', 'active-fd:%s:%s' % (key[1], 'count' if key in M.refcounts else 'descriptor'), ok, loc=a0.loc,
+               detail=('written with %s held, the lock of the reference count' % L) if ok else
+                      ('%s is modified without the lock that protects the reference count (%s): %s' % (key[1], sorted(str(l) for l in locks), describe(a0.e))))
+    # anchor: the descriptor is used in the dynamic extent of each of the three wake-up slots
+    for slot in ('event_rx_on', 'event_rx_off', 'event_send'):
+        fs = {f.q for f in prog.slot_targets(slot)}
+        if not any(set(h.frames(a.e, a.cx.root)) & fs for k in M.descriptors for a in M.by_key[k]):
+            raise AnalysisBroken('the shared wake-up descriptor is not accessed by any %s slot function' % slot)
